@@ -6,6 +6,6 @@ Require Extraction.
 Require Import ExtrOcamlBasic ExtrOcamlString.
 Extraction Language OCaml.
 Extraction "../ocaml/c12/model.ml" route_ok prop_obs_ok cluster_wfb pool_of assoc_pool assoc_opt sort_ring
-  routing_request route_source replica_cands node_cands owners tokens_distinct accept_conn_shard pool_wfb refill_ok refill_dropped pool_run pool_step rf_init
+  routing_request route_source replica_cands node_cands owners tokens_distinct accept_conn_shard pool_wfb refill_ok refill_closed_ok refill_released refill_dropped pool_run pool_step rf_init
   PartKey.ps_calculate_token PartKey.spec_token PartKey.key_okb
   Tablets.run Tablets.cluster_ops Tablets.info_empty Tablets.lookup Tablets.find_table.
